@@ -90,6 +90,7 @@ func synthRoutes(r *rng, idx int, withVarForm bool) (*modSpec, []routeIntent) {
 	b.WriteString("const pkgRoute = \"/pkg_const/\"\n\ntype IdItem int64\n\ntype Params struct {\n\tA int\n\tB string\n}\n\ntype Result struct {\n\tOK bool\n\tItems []IdItem\n}\n\ntype controller struct{}\n\ntype admin struct{}\n\n")
 	b.WriteString("type Flag bool\n\ntype Token string\n\nfunc QueryParamBool[T ~bool](echo.Context, string) T { var z T; return z }\nfunc QueryParam[T ~string](echo.Context, string) T { return \"\" }\nfunc QueryParamInt[T ~int64](echo.Context, string) (T, error) { return 0, nil }\nfunc (controller) QueryParamInt64(echo.Context, string) int64 { return 0 }\nfunc (controller) QueryParamBool(echo.Context, string) bool { return false }\nfunc FormValueJSON(echo.Context, string, any) error { return nil }\n\n")
 	var intents []routeIntent
+	var twinB *routeIntent
 	var reg strings.Builder
 	reg.WriteString("func withGroup(e *echo.Echo, f func(*echo.Echo)) { f(e) }\n\nfunc routes(e *echo.Echo, ct *controller, cv controller, ext inner.Controller, ad admin) {\n\tconst localRoute = \"local_const\"\n\tvar registered []*echo.Route\n\t_ = registered\n")
 	n := 3 + r.intn(8)
@@ -213,9 +214,37 @@ func synthRoutes(r *rng, idx int, withVarForm bool) (*modSpec, []routeIntent) {
 			b.WriteString(d)
 		}
 	}
+	// the same handler expression (ct.Twin) in two registering functions whose parameter ct has two different types:
+	// a handler is identified by the object the expression resolves to, not by its text
+	var reg2 string
+	if r.chance(2, 3) {
+		bodyA, stmtsA := synthBody(r, payloads, false)
+		bodyB, stmtsB := synthBody(r, payloads, false)
+		fix := func(in routeIntent) routeIntent {
+			if routesAvoidGetWithData {
+				for _, st := range in.Stmts {
+					if st.Call == "Bind" || st.Call == "FormValue" || st.Call == "FormFile" || st.Call == "FormValueJSON" {
+						in.Verb = "POST"
+					}
+				}
+			}
+			return in
+		}
+		inA := fix(routeIntent{Verb: "GET", URL: "/twin/a", HandlerKind: "method-pointer", Name: "Twin", Stmts: stmtsA})
+		inB := fix(routeIntent{Verb: "GET", URL: "/twin/b", HandlerKind: "method-value", Name: "Twin", Stmts: stmtsB})
+		fmt.Fprintf(&b, "func (ct controller) Twin(c echo.Context) error {\n%s}\n\nfunc (ad admin) Twin(c echo.Context) error {\n\tvar ct controller\n\t_ = ct\n%s}\n\n", bodyA, bodyB)
+		fmt.Fprintf(&reg, "\te.%s(%q, ct.Twin)\n", inA.Verb, inA.URL)
+		reg2 = fmt.Sprintf("func routesAdmin(e *echo.Echo, ct admin) {\n\te.%s(%q, ct.Twin)\n}\n\n", inB.Verb, inB.URL)
+		intents = append(intents, inA)
+		twinB = &inB
+	}
 	// things that are not registrations: a one-argument call and a non-verb method
 	reg.WriteString("\te.PATCH(\"/not_a_known_verb\", topLevelNoop)\n\tfmt.Println(\"GET\", localRoute)\n}\n\nfunc topLevelNoop(echo.Context) error { return nil }\n")
 	b.WriteString(reg.String())
+	b.WriteString(reg2)
+	if twinB != nil {
+		intents = append(intents, *twinB)
+	}
 	innerSrc := "package inner\n\nimport \"" + mod + "/echo\"\n\nconst Url = \"/inner_const/\"\n\ntype Controller struct{}\n\nfunc (Controller) HandleExt(c echo.Context) error {\n\tvar in []int64\n\terr := c.Bind(&in)\n\t_ = err\n\tvar out string\n\treturn c.JSON(200, out)\n}\n\nfunc QueryParamInt[T ~int64](echo.Context, string) (T, error) { return 0, nil }\n\nfunc TopLevel(c echo.Context) error {\n\tv := c.QueryParam(\"inner1\")\n\t_ = v\n\tvar out map[string][]int\n\treturn c.JSON(200, out)\n}\n"
 	m := &modSpec{Name: fmt.Sprintf("routes%d", idx), ModPath: mod, Target: "routes.go", GoSrc: r.bool(),
 		Files: []modFile{{"routes.go", b.String()}, {"echo/echo.go", echoStub}, {"inner/inner.go", innerSrc}}}
